@@ -324,4 +324,72 @@ theorem Rodeo.setLimit_inv {env : Env} {r : Rodeo} (h : r.Inv env) (m : Nat) : (
     exact ⟨a1, a2, a3, a4, a5⟩
   exact ⟨hwf, h2, h3, h4, h5, h6, h7⟩
 
+
+/-! ### One iteration of the store-then-insert loops (`clone_strings_into`, the deserialisers) -/
+
+theorem tfind_congr {hash : Bytes → UInt64} {S S' : Nat → Option Bytes} {t : Table} (x : Bytes)
+    (h : ∀ e ∈ t, S e.2 = S' e.2) : tfind hash S t x = tfind hash S' t x := by
+  unfold tfind
+  congr 1
+  induction t with
+  | nil => rfl
+  | cons e rest ih =>
+    simp only [List.find?_cons]
+    rw [h e (by simp), ih (fun e' he' => h e' (by simp [he']))]
+
+/-- After a successful `store` of a *new* string below the key capacity: both lookup forms (before
+and after the push) answer "absent", the insert with the source's rehash closure succeeds, and the
+pushed interner satisfies `Pushed`. -/
+theorem Rodeo.push_after_store {env : Env} {r : Rodeo} (h : r.Inv env) {x : Bytes} {a' : Arena} {ref : StrRef}
+    (hst : r.arena.store x = .ok (a', ref)) (grow : Bool) :
+    tableFind env a'.read (r.strings ++ [ref]) r.table x = .ok (tfind env.hash (r.str env) r.table x) ∧
+    tableFind env a'.read r.strings r.table x = .ok (tfind env.hash (r.str env) r.table x) ∧
+    ((∀ k, r.str env k ≠ some x) → r.strings.length < r.N →
+      tableInsert r.table (env.hash x) r.strings.length grow (rehashFn env a'.read (r.strings ++ [ref]))
+          = .ok (r.table ++ [(env.hash x, r.strings.length)]) ∧
+      Rodeo.Pushed env r ({ r with table := r.table ++ [(env.hash x, r.strings.length)], strings := r.strings ++ [ref], arena := a' } : Rodeo) x ref) := by
+  have hwf' := Arena.store_wf h.wf hst
+  have hmono : ∀ l y, r.arena.read l = some y → a'.read l = some y :=
+    fun l y hr => Arena.store_read_old h.wf hst l y hr
+  have hS1 : ∀ e ∈ r.table, strAt env a'.read (r.strings ++ [ref]) e.2 = r.str env e.2 := by
+    intro e he
+    have hb := h.tinv.bound e he
+    obtain ⟨y, hy⟩ := h.str_total e.2 hb
+    rw [strAt_append]; simp only [hb, ↓reduceIte]
+    rw [hy]; exact strAt_mono hmono hy
+  have hS2 : ∀ e ∈ r.table, strAt env a'.read r.strings e.2 = r.str env e.2 := by
+    intro e he
+    have hb := h.tinv.bound e he
+    obtain ⟨y, hy⟩ := h.str_total e.2 hb
+    rw [hy]; exact strAt_mono hmono hy
+  refine ⟨?_, ?_, ?_⟩
+  · rw [tableFind_eq env a'.read (r.strings ++ [ref]) r.table x (fun e he => by have := h.tinv.bound e he; simp; omega)]
+    rw [tfind_congr x hS1]
+  · rw [tableFind_eq env a'.read r.strings r.table x h.tinv.bound]
+    rw [tfind_congr x hS2]
+  · intro hnew hlt
+    have hc : contentOf env a'.read ref = some x := by
+      rcases Arena.store_nonempty_ref hst with ⟨h0, rfl, _⟩ | ⟨_, loc, rfl, _⟩
+      · simp [contentOf]; exact List.eq_nil_of_length_eq_zero h0
+      · simp only [contentOf]; exact Arena.store_read_new h.wf hst
+    have hvalid : ∀ loc, ref = .arena loc → a'.valid loc ∧ loc.len ≠ 0 ∧ ∀ l, r.arena.valid l → l.disjoint loc := by
+      intro loc hl
+      subst hl
+      refine ⟨(Arena.valid_iff_read hwf' loc).mpr ⟨x, Arena.store_read_new h.wf hst⟩, ?_, ?_⟩
+      · rcases Arena.store_nonempty_ref hst with ⟨_, hh, _⟩ | ⟨h0, loc', hh, hl⟩
+        · simp at hh
+        · injection hh with hh; subst hh; omega
+      · intro l hv; exact Arena.store_disjoint h.wf hst l hv
+    have hstat : ∀ i, ref = .static i → i < env.pool.length := by
+      intro i hi
+      rcases Arena.store_nonempty_ref hst with ⟨_, hh, _⟩ | ⟨_, loc', hh, _⟩ <;> simp [hi] at hh
+    have hinv := Rodeo.push_inv h hwf' hmono hc hnew hlt hvalid hstat
+    have hplaced : ∀ e ∈ r.table, ∃ s, strAt env a'.read (r.strings ++ [ref]) e.2 = some s ∧ e.1 = env.hash s := by
+      intro e he
+      obtain ⟨s, hs, hh⟩ := h.tinv.placed e he
+      exact ⟨s, by rw [hS1 e he]; exact hs, hh⟩
+    refine ⟨tableInsert_ok (hash := env.hash) (S := strAt env a'.read (r.strings ++ [ref])) hplaced (env.hash x) r.strings.length grow, ?_⟩
+    refine ⟨hinv, rfl, rfl, ?_, Rodeo.old_of_push h hmono, (Arena.store_usage hst).1⟩
+    simp [Rodeo.str, strAt_append, hc]
+
 end Lasso
